@@ -54,3 +54,15 @@ META["C33"] = dict(
     note="The directive instance is a harness fake counting non-weak references; the goroutine order is controlled by one verif-tagged gate "
          "(without it the check reports an infrastructure failure, not a verdict).",
 )
+REGISTRY["C04"] = ("linktable", "run")
+REGISTRY["C06"] = ("linktable", "run")
+_LT_TECH = "TLC exhaustive model checking of LinkTable.tla; TLC-enumerated and simulated event histories replayed on two real transport controllers with fake transports/links; recorded traces validated by TLC (LinkTableMon.tla: observer + strict)"
+_LT_NOTE = "Events are delivered sequentially with a quiescent checkpoint after each (goroutine-state based); concurrent delivery from several goroutines is not exercised. Fake links/transports stand in for real ones; the quic address table (Transport.links) is covered by C03/C05 handshakes, not here."
+META["C04"] = dict(technique=_LT_TECH, note=_LT_NOTE,
+    text="LookupSound / NoSelfLink on the design (all histories over 7 link objects, 2 controllers) and on observed values: every value of every "
+         "EstablishLinkWithPeer(S, D) request (S empty or either local identity, D any peer) names target D, comes from the controller of source S, "
+         "is a live link, never a self link; self-dials are closed and never reported.")
+META["C06"] = dict(technique=_LT_TECH, note=_LT_NOTE,
+    text="ReportedIsLive: after every event of every history (duplicate reports, same-uuid replacement, uuid reuse across peers, late and repeated "
+         "losses) GetPeerLinks and the values of all link requests equal the abstract set 'established and not lost / not replaced'; every link that "
+         "left that set had Close called.")
